@@ -23,6 +23,7 @@
 #include "TravelDirections.hpp"
 #include "verif_rc.hpp"
 
+#include <array>
 #include <map>
 #include <memory>
 #include <omp.h>
@@ -448,16 +449,21 @@ std::string trace(Creator &cr, const Lay &l, const Geo &g, const CopyModel &cm,
   double entrypos[3] = {pk.pos[0], pk.pos[1], pk.pos[2]};
   int lastwrap[3] = {0, 0, 0};
   const size_t nact = cr.number_of_actual_subgrids();
-  std::map< std::vector< uint64_t >, int > seen;
+  // Bound on the number of subgrid visits of one packet, so that a livelock is
+  // a failure and not a hang.  Sound packets stay far below it: at most ~25
+  // box lengths of path (optical depth <= 2 kappa_max L, opacity contrast
+  // <= 11 on periodic grids), i.e. some hundred hand-overs.
+  const int MAXVISITS = 4000;
+  std::map< std::array< uint64_t, 5 >, int > seen;
   int zero_run = 0;
   for (;;) {
-    if (++r.steps > 20000)
-      return "packet did not terminate within 20000 subgrid visits";
-    {
+    if (++r.steps > MAXVISITS)
+      return fmt("packet did not terminate within %d subgrid visits", MAXVISITS);
+    if (zero_run >= 4) {
       // the same (subgrid, entry, position) for the third time, reached
       // through zero-length visits only: the packet is caught in a cycle
       const CoordinateVector<> q = ph.get_position();
-      std::vector< uint64_t > key{(uint64_t)cur, (uint64_t)in, 0, 0, 0};
+      std::array< uint64_t, 5 > key{{(uint64_t)cur, (uint64_t)in, 0, 0, 0}};
       for (int a = 0; a < 3; ++a)
         memcpy(&key[2 + a], &q[a], 8);
       if (++seen[key] >= 3 && zero_run >= 8)
@@ -474,7 +480,7 @@ std::string trace(Creator &cr, const Lay &l, const Geo &g, const CopyModel &cm,
     Probe &sg = *cr.get_subgrid(cur);
     double box[6];
     sg.get_grid_box(box);
-    if (in != TRAVELDIRECTION_INSIDE && !getenv("C03_NOHO")) {
+    if (in != TRAVELDIRECTION_INSIDE) {
       // where will interact() put the packet?  It must be the physical exit
       // position (modulo the box length on a wrapped axis), on the entry
       // element named by the classification.
@@ -504,7 +510,7 @@ std::string trace(Creator &cr, const Lay &l, const Geo &g, const CopyModel &cm,
                      "expected %.17g)",
                      cur, in, a, entry, exitpos[a], lastwrap[a], expect);
       }
-    } else if (in == TRAVELDIRECTION_INSIDE) {
+    } else {
       // (is_in_box() itself is too strict here: a start on a subgrid boundary
       // may be an ulp outside the box get_subgrid() selects)
       for (int a = 0; a < 3; ++a)
@@ -547,7 +553,6 @@ std::string trace(Creator &cr, const Lay &l, const Geo &g, const CopyModel &cm,
     for (int a = 0; a < 3; ++a) {
       const int oo = OFF.o[out][a];
       exitpos[a] = q[a];
-      if (getenv("C03_NOHO")) continue;
       if (oo != 0 && sgn(pk.d[a]) != oo)
         return fmt("exit %d from subgrid %zu against the direction of travel "
                    "(direction[%d] = %g)",
@@ -580,7 +585,7 @@ std::string trace(Creator &cr, const Lay &l, const Geo &g, const CopyModel &cm,
     if (ngb >= nact)
       return fmt("subgrid %zu: neighbour %d = %u out of range", cur, out,
                  (unsigned)ngb);
-    if (cm.orig[ngb] != mo && !getenv("C03_NOHO"))
+    if (cm.orig[ngb] != mo)
       return fmt("subgrid %zu (original %d): neighbour %d = %u (original %d), "
                  "geometric neighbour is %d",
                  cur, cm.orig[cur], out, (unsigned)ngb, cm.orig[ngb], mo);
@@ -625,7 +630,7 @@ long double tau_between(const Geo &g, const Field &f, const Pk &p,
                       x1 = (long double)a[k] + s1 * p.d[k];
     const long m0 = (long)std::floor((std::min(x0, x1) - g.anchor[k]) / cs) - 1;
     const long m1 = (long)std::floor((std::max(x0, x1) - g.anchor[k]) / cs) + 1;
-    for (long m = m0; m <= m1 && m - m0 < 100000; ++m) {
+    for (long m = m0; m <= m1 && m - m0 < 4000; ++m) {
       const long double s = (g.anchor[k] + m * cs - a[k]) / p.d[k];
       if (s > s0 && s < s1)
         cuts.push_back(s);
@@ -990,7 +995,7 @@ VCase gen_copies_trace() {
   gen_geometry(c, nc);
   const bool anyper = per[0] || per[1] || per[2];
   gen_field(c, anyper);
-  gen_packets(c, nc, ns, anyper, 120);
+  gen_packets(c, nc, ns, anyper, 80);
   int mode;
   c.I("levels", gen_levels(ns, per, 160, mode));
   c.I("lmode", mode);
